@@ -3,6 +3,7 @@ package ref
 import (
 	"fmt"
 	"strings"
+	"sync"
 	"time"
 
 	"github.com/dop251/goja"
@@ -14,6 +15,8 @@ import (
 
 const jsPrelude = `
 var __log = [];
+// a run-away loop is cut off after 20000 log entries (a distinct completion kind, reached without a timer)
+__log.push = function(x) { if (this.length >= 20000) { var e = new Error('log overflow'); e.name = 'LogOverflow'; throw e; } return Array.prototype.push.call(this, x); };
 // source text of functions is layout, not behaviour: make it unobservable
 Function.prototype.toString = function() { return 'function'; };
 function print() { __log.push('print:' + Array.prototype.map.call(arguments, __show).join(',')); }
@@ -49,14 +52,26 @@ var preludeProg = goja.MustCompile("prelude", jsPrelude, false)
 type Obs struct {
 	Log, Kind, Val string
 	Interrupted    bool
+	Hang           bool // interrupted again under the long limit: the program does not terminate
 	EngineCrash    bool
 	SyntaxError    bool
 }
 
 func (o Obs) String() string { return o.Log + " | " + o.Kind + " | " + o.Val }
 
-// RunJS executes code in a fresh realm.
+// RunJS executes code in a fresh realm. The interrupt timer is a safety net only: when it fires the run is
+// repeated once with a fifteen times longer limit, so that a loaded machine cannot turn a finite run into
+// "interrupted"; a run that is interrupted twice did not terminate (Hang).
 func RunJS(code string) (obs Obs) {
+	obs = runJS(code, 2*time.Second)
+	if obs.Interrupted {
+		obs = runJS(code, 30*time.Second)
+		obs.Hang = obs.Interrupted
+	}
+	return obs
+}
+
+func runJS(code string, limit time.Duration) (obs Obs) {
 	defer func() {
 		// a crash of the reference engine itself (goja panics on some exotic escapes): no verdict
 		if r := recover(); r != nil {
@@ -71,9 +86,22 @@ func RunJS(code string) (obs Obs) {
 	if err != nil {
 		return Obs{Kind: "throw:SyntaxError", SyntaxError: true}
 	}
-	timer := time.AfterFunc(2*time.Second, func() { vm.Interrupt("timeout") })
+	// the timer may only interrupt the program run itself, never the read-out that follows
+	var mu sync.Mutex
+	finished := false
+	timer := time.AfterFunc(limit, func() {
+		mu.Lock()
+		defer mu.Unlock()
+		if !finished {
+			vm.Interrupt("timeout")
+		}
+	})
 	v, err := vm.RunProgram(prog)
+	mu.Lock()
+	finished = true
+	mu.Unlock()
 	timer.Stop()
+	vm.ClearInterrupt()
 	o := Obs{Kind: "normal"}
 	if err != nil {
 		switch ex := err.(type) {
